@@ -1,7 +1,10 @@
-(* Properties_C09.v -- copy, convert, compact and save-as preserve the whole tree; cgnsdiff is silent exactly on trees
-   that are equal up to the order of children.  Exported statements about the model Copy.v (a transcription of
-   recurse_nodes / cgio_copy_node / cgio_compute_data_size / cgio_copy_file / rewrite_file of src/cgns_io.c, cg_save_as,
-   the tool drivers, and compare_data / compare_nodes of tools/cgnsdiff.c).
+(* Properties_C09.v -- copy, convert, compact and save-as preserve the whole tree; cgnsdiff is silent exactly on
+   forests that are equal up to the order of children.  Exported statements about the model Copy.v (a transcription
+   of recurse_nodes / cgio_copy_node / cgio_compute_data_size / cgio_copy_file / rewrite_file of src/cgns_io.c,
+   cg_save_as, the tool drivers, and compare_data / compare_nodes of tools/cgnsdiff.c).
+   [Cur] is the code of /repo now; [Old] the code before the repairs cb07d24, 3a1c414, 39f8525, e3072bd, kept only in
+   the ..._old_refuted theorems, which record what those repairs changed.  Every positive theorem is about [Cur]
+   (those stated for all [v] hold for both).
    Only statements closed by [exact]; Print Assumptions under each. *)
 From Coq Require Import ZArith List Bool Permutation.
 From Flocq Require Import IEEE754.Binary IEEE754.Bits.
@@ -10,88 +13,130 @@ Import ListNotations.
 Local Open Scope Z_scope.
 
 (* ---- the recursive copy, links kept (follow_links = 0) ------------------------------------------------------------------
-   For EVERY source (any depth, fan-out, any of the documented types and sizes, empty data, internal and external
-   links) whose nodes are well formed, every model budget and every resolution of links: the source's children --
-   all of them, in order, with label, type, dimensions, data and their own subtrees, links as links -- are appended
-   to the output root.  Into an empty file (ks0 = []) the result's forest IS the source's forest. *)
+   For EVERY source (any depth, fan-out, any of the documented types -- for an ADF destination also spelled with a
+   lower-case first letter, which ADF keeps -- any size, empty data, internal and external links) whose nodes are well
+   formed, every model budget and every resolution of links: the source's children -- all of them, in order, with
+   label, type, dimensions, data and their own subtrees, links as links -- are appended to the output root.
+   Into an empty file (ks0 = []) the result's forest IS the source's forest. *)
 Theorem C09_copy_preserves : forall dst_hdf5 resolve fuel nm lbl dt dims data kids n l t d da ks0,
-  forallb (tree_ok dst_hdf5) kids = true -> forallb links_ok kids = true ->
-  copy_file dst_hdf5 resolve fuel false (Node nm lbl dt dims data kids) (Node n l t d da ks0) =
+  forallb (tree_ok Cur dst_hdf5) kids = true -> forallb links_ok kids = true ->
+  copy_file Cur dst_hdf5 resolve fuel false (Node nm lbl dt dims data kids) (Node n l t d da ks0) =
   Ok (Node n l t d da (ks0 ++ kids)).
-Proof. exact copy_file_nofollow. Qed.
+Proof. exact (copy_file_nofollow Cur). Qed.
 Print Assumptions C09_copy_preserves.
 
 (* one node at depth > 0: label, type, dimension values and data of the output node become the source's *)
 Theorem C09_copy_node_exact : forall h lbl dt dims data n l0 t0 d0 da0 ks,
-  node_ok h dt dims data = true ->
-  copy_node h lbl dt dims data (Node n l0 t0 d0 da0 ks) = Ok (Node n lbl dt dims data ks).
-Proof. exact copy_node_ok. Qed.
+  node_ok Cur h dt dims data = true ->
+  copy_node Cur h lbl dt dims data (Node n l0 t0 d0 da0 ks) = Ok (Node n lbl dt dims data ks).
+Proof. exact (copy_node_ok Cur). Qed.
 Print Assumptions C09_copy_node_exact.
+
+(* the node that the old code copied without its data (type "r8") is inside the domain of C09_copy_preserves now, was
+   outside the old domain, and is copied exactly; into HDF5 (upper-case names only) it arrives as "R8" with its data *)
+Theorem C09_lowercase_type_copied :
+  forallb (tree_ok Cur false) (kids_of w_lower) = true /\ forallb (tree_ok Old false) (kids_of w_lower) = false /\
+  copy_file Cur false (fun _ _ => None) 0 false w_lower adf_root = Ok (match adf_root with
+                                                                       | Node n l t d da _ => Node n l t d da (kids_of w_lower)
+                                                                       | x => x end).
+Proof. exact lowercase_type_copied. Qed.
+Print Assumptions C09_lowercase_type_copied.
+Theorem C09_lowercase_type_to_hdf5 :
+  exists out, copy_file Cur true (fun _ _ => None) 0 false w_lower hdf5_root = Ok out /\
+              kids_of out = [Node [78;49] [76] [82;56] [2] [1;2;3;4;5;6;7;8;9;10;11;12;13;14;15;16] []].
+Proof. exact lowercase_type_to_hdf5. Qed.
+Print Assumptions C09_lowercase_type_to_hdf5.
+
+(* a compound ADF type ("I4,R8", "R8[3]"; anything longer than two characters) on a node that has data: cgio_copy_node
+   returns an error before it writes anything to the output node, and the copy as a whole reports the error *)
+Theorem C09_compound_type_reports_error : forall h lbl dt dims data out,
+  is_nil dims = false -> compute_data_size Cur (firstn 2 dt) dims <> 0 -> 2 < lenZ dt ->
+  copy_node Cur h lbl dt dims data out = Err.
+Proof. exact copy_node_compound_err. Qed.
+Print Assumptions C09_compound_type_reports_error.
+Theorem C09_compound_type_copy_fails :
+  copy_file Cur false (fun _ _ => None) 0 false w_compound adf_root = Err /\
+  copy_file Cur true (fun _ _ => None) 0 false w_compound hdf5_root = Err.
+Proof. exact compound_type_reports_error. Qed.
+Print Assumptions C09_compound_type_copy_fails.
 
 (* ---- follow_links = 1: whenever the copy succeeds its result is the expansion of the source: proper nodes and
    internal links kept, every external link replaced by a node of the link's name that carries label, type,
    dimensions, data and the (expanded) children of the node the link resolves to *)
 Theorem C09_copy_follow_expands : forall h resolve,
-  (forall f p t, resolve f p = Some t -> tree_ok h t = true) ->
+  (forall f p t, resolve f p = Some t -> tree_ok Cur h t = true) ->
   forall fuel nm lbl dt dims data kids n l t d da ks0 o,
-  forallb (tree_ok h) kids = true ->
-  copy_file h resolve fuel true (Node nm lbl dt dims data kids) (Node n l t d da ks0) = Ok o ->
+  forallb (tree_ok Cur h) kids = true ->
+  copy_file Cur h resolve fuel true (Node nm lbl dt dims data kids) (Node n l t d da ks0) = Ok o ->
   exists ks', o = Node n l t d da (ks0 ++ ks') /\ ExpandsL resolve kids ks'.
-Proof. exact copy_file_follow_sound. Qed.
+Proof. exact (copy_file_follow_sound Cur). Qed.
 Print Assumptions C09_copy_follow_expands.
 
 (* ---- the entry points ------------------------------------------------------------------------------------------------------ *)
 (* cgio_copy_file / cg_save_as / cgnsconvert, links kept: the new file's forest is the source's, in both format directions *)
 Theorem C09_save_as_convert_preserve : forall fuel w src dst dst_hdf5 r,
   get_file w src = Some r -> is_link r = false ->
-  kids_ok dst_hdf5 r = true -> forallb links_ok (kids_of r) = true ->
-  cg_save_as fuel w src dst dst_hdf5 false = Ok (set_file w dst (with_kids (new_root dst_hdf5) (kids_of r))) /\
-  cgnsconvert fuel w src dst dst_hdf5 false = Ok (set_file w dst (with_kids (new_root dst_hdf5) (kids_of r))).
-Proof. exact save_as_convert_preserve. Qed.
+  kids_ok Cur dst_hdf5 r = true -> forallb links_ok (kids_of r) = true ->
+  cg_save_as Cur fuel w src dst dst_hdf5 false = Ok (set_file w dst (with_kids (new_root dst_hdf5) (kids_of r))) /\
+  cgnsconvert Cur fuel w src dst dst_hdf5 false = Ok (set_file w dst (with_kids (new_root dst_hdf5) (kids_of r))).
+Proof. exact (save_as_convert_preserve Cur). Qed.
 Print Assumptions C09_save_as_convert_preserve.
 
 Theorem C09_save_as_convert_expand : forall fuel w src dst h r w',
-  get_file w src = Some r -> kids_ok h r = true ->
-  (forall f p t, resolve_in w src f p = Some t -> tree_ok h t = true) ->
-  cg_save_as fuel w src dst h true = Ok w' ->
+  get_file w src = Some r -> kids_ok Cur h r = true ->
+  (forall f p t, resolve_in w src f p = Some t -> tree_ok Cur h t = true) ->
+  cg_save_as Cur fuel w src dst h true = Ok w' ->
   exists ks', w' = set_file w dst (with_kids (new_root h) ks') /\ ExpandsL (resolve_in w src) (kids_of r) ks'.
-Proof. exact do_copy_file_follow. Qed.
+Proof. exact (do_copy_file_follow Cur). Qed.
 Print Assumptions C09_save_as_convert_expand.
 
 (* rewrite_file = cgio_compress_file = compress-on-close = cgnscompress: the named file ends up holding the source's
    forest (same format), every other file of the world is untouched *)
 Theorem C09_compress_preserves : forall fuel w src filename h r,
   get_file w src = Some r -> is_link r = false ->
-  kids_ok h r = true -> forallb links_ok (kids_of r) = true ->
-  exists w', cgio_compress_file fuel w src filename h = Ok w' /\
+  kids_ok Cur h r = true -> forallb links_ok (kids_of r) = true ->
+  exists w', cgio_compress_file Cur fuel w src filename h = Ok w' /\
              get_file w' filename = Some (with_kids (new_root h) (kids_of r)) /\
              (forall g, bytes_eqb filename g = false -> get_file w' g = get_file w g).
-Proof. exact rewrite_file_preserves. Qed.
+Proof. exact (rewrite_file_preserves Cur). Qed.
 Print Assumptions C09_compress_preserves.
 
 (* ---- cgnsdiff -d, tolerance 0 --------------------------------------------------------------------------------------------------
-   For link-free well-formed trees with unique sibling names whose paths fit cgnsdiff's buffers: the output is
-   empty IFF the two trees are equal up to the order of children (canon sorts every child list by name; strip
-   forgets the root's own name, which cgnsdiff never looks at). *)
+   Whole files: for link-free forests of well-formed nodes (upper-case type names, the ones cgnsdiff's size table
+   knows) with unique non-empty sibling names, of ANY depth: the output is empty IFF the two forests below the roots
+   are equal up to the order of children (canon sorts every child list by name).  The roots' own name, label, type
+   and data -- format specific -- are not compared. *)
 Theorem C09_diff_silent_iff_equal_unordered : forall w1 w2 follow fuel f1 f2 r1 r2,
   get_file w1 f1 = Some r1 -> get_file w2 f2 = Some r2 ->
   link_free r1 = true -> link_free r2 = true ->
   names_unique r1 = true -> names_unique r2 = true ->
-  tree_ok false r1 = true -> tree_ok false r2 = true ->
-  paths_fit 0 r1 = true -> paths_fit 0 r2 = true ->
+  names_nonempty r1 = true -> names_nonempty r2 = true ->
+  kids_ok Old false r1 = true -> kids_ok Old false r2 = true ->
   (depth r1 <= fuel)%nat ->
-  (cgnsdiff true follow w1 w2 fuel f1 f2 = [] <-> strip (canon r1) = strip (canon r2)).
+  (cgnsdiff Cur true follow w1 w2 fuel f1 f2 = [] <->
+   sort_nodes (map canon (kids_of r1)) = sort_nodes (map canon (kids_of r2))).
 Proof. exact DiffP.cgnsdiff_silent_iff. Qed.
 Print Assumptions C09_diff_silent_iff_equal_unordered.
 
-(* the same at any pair of nodes (cgnsdiff with dataset arguments and -r) *)
+(* in particular a file and any file with the same forest under another root (its ADF <-> HDF5 conversion) *)
+Theorem C09_diff_cross_format_silent : forall w1 w2 follow fuel f1 f2 r1 r2,
+  get_file w1 f1 = Some r1 -> get_file w2 f2 = Some r2 ->
+  kids_of r2 = kids_of r1 ->
+  link_free r1 = true -> link_free r2 = true -> names_unique r1 = true -> names_nonempty r1 = true ->
+  kids_ok Old false r1 = true -> (depth r1 <= fuel)%nat ->
+  cgnsdiff Cur true follow w1 w2 fuel f1 f2 = [].
+Proof. exact DiffP.cgnsdiff_same_forest_silent. Qed.
+Print Assumptions C09_diff_cross_format_silent.
+
+(* the same at any pair of nodes other than the two roots (cgnsdiff with dataset arguments and -r) *)
 Theorem C09_diff_sound_complete : forall w1 w2 follow fuel name1 cf1 t1 name2 cf2 t2,
+  bytes_eqb name1 [47] && bytes_eqb name2 [47] = false ->
   link_free t1 = true -> link_free t2 = true ->
   names_unique t1 = true -> names_unique t2 = true ->
-  tree_ok false t1 = true -> tree_ok false t2 = true ->
-  paths_fit (lenZ (unroot name1)) t1 = true -> paths_fit (lenZ (unroot name2)) t2 = true ->
+  names_nonempty t1 = true -> names_nonempty t2 = true ->
+  tree_ok Old false t1 = true -> tree_ok Old false t2 = true ->
   (depth t1 <= fuel)%nat ->
-  (compare_nodes true follow w1 w2 fuel name1 cf1 t1 name2 cf2 t2 = [] <-> strip (canon t1) = strip (canon t2)).
+  (compare_nodes Cur true follow w1 w2 fuel name1 cf1 t1 name2 cf2 t2 = [] <-> strip (canon t1) = strip (canon t2)).
 Proof. exact DiffP.diff_empty_iff. Qed.
 Print Assumptions C09_diff_sound_complete.
 
@@ -106,54 +151,25 @@ Theorem C09_canon_idempotent : forall t, names_unique t = true -> canon (canon t
 Proof. exact DiffP.canon_idem. Qed.
 Print Assumptions C09_canon_idempotent.
 
-(* ---- where the code does NOT do what the property says (each witness is replayed on the library by checks/C09.py) --------------- *)
-(* an ADF node whose type string is lower case: size 0, the copy succeeds without the data *)
-Theorem C09_unknown_type_data_dropped_refuted :
-  exists src out, copy_file false (fun _ _ => None) 0 false src adf_root = Ok out /\
-                  kids_of out = [Node [78;49] [76] [114;56] [2] [] []] /\ kids_of out <> kids_of src.
-Proof. exact lowercase_type_data_dropped. Qed.
-Print Assumptions C09_unknown_type_data_dropped_refuted.
-
-(* an ADF node of a compound type: the buffer is sized from the first two characters, the read overruns it *)
-Theorem C09_compound_type_overflow_refuted :
-  exists src, copy_file false (fun _ _ => None) 0 false src adf_root = Overflow.
-Proof. exact compound_type_overflow. Qed.
-Print Assumptions C09_compound_type_overflow_refuted.
-
+(* ---- known findings: where the current code does NOT do what the property says (replayed on the library by the
+   corpus of checks/C09.py; listed in KNOWN_FINDINGS.txt) ------------------------------------------------------------------------ *)
 (* follow_links: an internal link inside an externally linked subtree is copied verbatim and then points elsewhere *)
 Theorem C09_follow_nested_internal_link_refuted :
   exists w src dst w', get_file w src = Some fileA /\
-    cgnsconvert 4 w src dst false true = Ok w' /\
+    cgnsconvert Cur 4 w src dst false true = Ok w' /\
     full_view 8 w' dst (match get_file w' dst with Some r => r | None => fileA end) <> full_view 8 w src fileA /\
     full_view 8 w src fileA <> None.
 Proof. exact follow_nested_internal_link_misdirected. Qed.
 Print Assumptions C09_follow_nested_internal_link_refuted.
 
-(* cgnsdiff on an ADF file and its exact HDF5 conversion reports the roots' labels *)
-Theorem C09_diff_cross_format_root_label_refuted :
-  exists w src dst w', get_file w src = Some (with_kids adf_root [Node [78] [76] I4 [1] [7;0;0;0] []]) /\
-    cgnsconvert 4 w src dst true false = Ok w' /\
-    (forall r r', get_file w' src = Some r -> get_file w' dst = Some r' -> kids_of r' = kids_of r) /\
-    cgnsdiff true false w' w' 8 src dst = [DLabel [47] [47]].
-Proof. exact diff_cross_format_root_label. Qed.
-Print Assumptions C09_diff_cross_format_root_label_refuted.
-
 (* cgnsdiff never compares the file and path of a link *)
 Theorem C09_diff_link_target_blind_refuted :
   exists w f1 f2 r1 r2, get_file w f1 = Some r1 /\ get_file w f2 = Some r2 /\
-    cgnsdiff true false w w 8 f1 f2 = [] /\
+    cgnsdiff Cur true false w w 8 f1 f2 = [] /\
     strip (canon r1) <> strip (canon r2) /\
     full_view 8 w f1 r1 <> full_view 8 w f2 r2 /\ full_view 8 w f1 r1 <> None /\ full_view 8 w f2 r2 <> None.
 Proof. exact diff_link_target_blind. Qed.
 Print Assumptions C09_diff_link_target_blind_refuted.
-
-(* a tree the copy reproduces exactly makes cgnsdiff write past its 1024-byte path buffers *)
-Theorem C09_diff_deep_path_overflow_refuted :
-  exists w f r, get_file w f = Some r /\ link_free r = true /\ names_unique r = true /\ tree_ok true r = true /\
-    copy_file false (fun _ _ => None) 0 false r adf_root = Ok r /\
-    has_overflow (cgnsdiff true false w w 64 f f) = true.
-Proof. exact diff_deep_path_overflow. Qed.
-Print Assumptions C09_diff_deep_path_overflow_refuted.
 
 (* outside the default options: with -t<tol> the comparison is fabs(a-b) > tol, false for a NaN -- 2.0 against NaN is
    silent (with the default tolerance 0 bytes are compared and the same pair IS reported).  Flocq's binary64. *)
@@ -165,16 +181,51 @@ Theorem C09_diff_tol_nan_refuted :
 Proof. exact diff_tol_nan_blind. Qed.
 Print Assumptions C09_diff_tol_nan_refuted.
 
+(* ---- history: what the OLD code did on the witnesses of the repaired defects (regression inputs in corpus/C09) ------------------ *)
+(* before cb07d24: an ADF node whose type string is lower case got size 0, the copy succeeded without the data *)
+Theorem C09_unknown_type_data_dropped_old_refuted :
+  exists src out, copy_file Old false (fun _ _ => None) 0 false src adf_root = Ok out /\
+                  kids_of out = [Node [78;49] [76] [114;56] [2] [] []] /\ kids_of out <> kids_of src.
+Proof. exact lowercase_type_data_dropped_old. Qed.
+Print Assumptions C09_unknown_type_data_dropped_old_refuted.
+
+(* before 3a1c414: a compound type -- the buffer was sized from the first two characters, the read overran it *)
+Theorem C09_compound_type_overflow_old_refuted :
+  exists src, copy_file Old false (fun _ _ => None) 0 false src adf_root = Overflow.
+Proof. exact compound_type_overflow_old. Qed.
+Print Assumptions C09_compound_type_overflow_old_refuted.
+
+(* before 39f8525: cgnsdiff on an ADF file and its exact HDF5 conversion reported the roots' labels; now silent *)
+Theorem C09_diff_cross_format_root_label_old_refuted :
+  exists w src dst w', get_file w src = Some (with_kids adf_root [Node [78] [76] I4 [1] [7;0;0;0] []]) /\
+    cgnsconvert Cur 4 w src dst true false = Ok w' /\
+    (forall r r', get_file w' src = Some r -> get_file w' dst = Some r' -> kids_of r' = kids_of r) /\
+    cgnsdiff Old true false w' w' 8 src dst = [DLabel [47] [47]] /\
+    cgnsdiff Cur true false w' w' 8 src dst = [].
+Proof. exact diff_cross_format_root_label_old. Qed.
+Print Assumptions C09_diff_cross_format_root_label_old_refuted.
+
+(* before e3072bd: a 40-deep chain of 32-character names, copied exactly, overflowed cgnsdiff's 1024-byte path
+   buffers; now the pair is compared to the bottom and found equal *)
+Theorem C09_diff_deep_path_overflow_old_refuted :
+  exists w f r, get_file w f = Some r /\ link_free r = true /\ names_unique r = true /\ tree_ok Cur true r = true /\
+    copy_file Cur false (fun _ _ => None) 0 false r adf_root = Ok r /\
+    has_overflow (cgnsdiff Old true false w w 64 f f) = true /\
+    cgnsdiff Cur true false w w 64 f f = [].
+Proof. exact diff_deep_path_overflow_old. Qed.
+Print Assumptions C09_diff_deep_path_overflow_old_refuted.
+
 (* ---- non-vacuity ---------------------------------------------------------------------------------------------------------------------- *)
 Example C09_hypotheses_satisfiable_copy :
-  kids_ok true sample_tree = true /\ forallb links_ok (kids_of sample_tree) = true /\ names_unique sample_tree = true.
+  kids_ok Cur false sample_tree = true /\ forallb links_ok (kids_of sample_tree) = true /\ names_unique sample_tree = true /\
+  kids_ok Old false sample_tree = false.
 Proof. exact sample_ok. Qed.
 Example C09_hypotheses_satisfiable_diff :
-  link_free sample_plain = true /\ names_unique sample_plain = true /\ tree_ok false sample_plain = true /\
-  paths_fit 0 sample_plain = true /\ (depth sample_plain <= 8)%nat /\
+  link_free sample_plain = true /\ names_unique sample_plain = true /\ names_nonempty sample_plain = true /\
+  kids_ok Old false sample_plain = true /\ (depth sample_plain <= 8)%nat /\
   canon sample_plain <> sample_plain_permuted /\
   kids_of (canon sample_plain) = kids_of (canon sample_plain_permuted).
 Proof. exact sample_plain_ok. Qed.
 Example C09_follow_succeeds_somewhere :
-  exists w', cgnsconvert 4 worldAB [65] [67] false true = Ok w'.
+  exists w', cgnsconvert Cur 4 worldAB [65] [67] false true = Ok w'.
 Proof. exact follow_succeeds_somewhere. Qed.
